@@ -156,6 +156,11 @@ class Gen:
             return self.decimal_ok()
         if k < 0.5:
             return D(r.choice(['NaN', 'Infinity', '-Infinity', '-NaN']))
+        if k < 0.6:       # a short number plus a far-away tail: more digits than the context precision
+            head = r.choice(['1.5', '0.2', '-7', '2147483647', '0.29', '12.34'])
+            body = r.choice(['0', '9']) * r.choice([26, 27, 28, 29, 30, 40])
+            tail = r.choice(['1', '9', '5', ''])
+            return D(head + ('' if '.' in head else '.') + body + tail)
         sign = r.choice([0, 1])
         coeff = r.choice([0, 1, 15, 2 ** 31 - 1, 2 ** 31, 2 ** 31 + 1, 2 ** 32 - 1, 2 ** 32, 10 ** 10, 10 ** 27,
                           10 ** 28 + 1, 10 ** 30 + 7, r.getrandbits(40)])
@@ -256,13 +261,33 @@ class Gen:
         return None
 
     def value_ok(self, depth=3, breadth=4):
-        """an encodable field value (C03's domain)"""
+        """an encodable field value (C03's domain); now and then the SAME container object occurs twice
+        in one value (shared, never circular)"""
         r = self.r
         if depth <= 0 or r.random() < 0.5:
             return self.scalar_ok()
+        pool = getattr(self, '_pool', None)
+        if pool and r.random() < 0.12:
+            return r.choice(pool)
         if r.random() < 0.5:
-            return [self.value_ok(depth - 1, breadth) for _ in range(r.randrange(0, breadth + 1))]
-        return self.table_ok(depth - 1, breadth)
+            v = [self.value_ok(depth - 1, breadth) for _ in range(r.randrange(0, breadth + 1))]
+        else:
+            v = self.table_ok(depth - 1, breadth)
+        if pool is not None and len(pool) < 6:
+            pool.append(v)
+        return v
+
+    def shared_value_ok(self, depth=3, breadth=4):
+        """like value_ok, with a fresh pool so that sub-containers are shared inside this one value"""
+        self._pool = []
+        try:
+            top = [self.value_ok(depth, breadth) for _ in range(3)]
+            if self._pool:
+                t = self.r.choice(self._pool)
+                top += [t, {'x': t, 'y': t}]
+            return top
+        finally:
+            self._pool = None
 
     def table_ok(self, depth=3, breadth=4):
         r = self.r
